@@ -186,6 +186,17 @@ def OPS(E):
         hs = r.pump_async(8)
         return out + sorted(hs)
 
+    def with_async_ext(r):
+        with_async('extend')(r)
+        r.c('sigparse 0 0 empty ' + E.sig_hex)
+        r.ext_root = E.sig.root
+
+    def async_extend_signature(r):
+        # KSI_AsyncExtendingHandle_new (the request is derived from a signature) to the calendar head and to a publication
+        out = [r.c('async_add 0 0 extsig 0 - t1').get('rc')]
+        out += [r.c('async_add 0 0 extsig 0 %s t2' % R.pub_string(E.t + 9 * 86400, E.cal.chain(E.t, E.t + 9 * 86400, E.sig.root).root())).get('rc')]
+        return out + sorted(r.pump_async(8))
+
     def async_conf(r):
         out = [r.c('async_add 0 0 signconf t1').get('rc')]
         return out + sorted(r.pump_async(6))
@@ -214,6 +225,7 @@ def OPS(E):
         'pubfile_lookup': (with_pubfile, one('pubfilelookup 0 0 nearest %d' % (E.t + 5), ('rc', 'found', 'time'))),
         'async_sign_tcp': (with_async('sign'), async_sign),
         'async_conf_tcp': (with_async('sign'), async_conf),
+        'async_extend_signature': (with_async_ext, async_extend_signature),
         'ha_sign': (with_async('hasign', 'ksi+tcp://b.example:1'), async_sign),
         'blocksign': (with_net, one('blocksign 0 5 1 1 7', ('rc', 'nsig'))),
         'blocksign_plain': (with_net, one('blocksign 0 9 0 0 8', ('rc', 'nsig'))),
@@ -280,7 +292,10 @@ def worker(job, r):
             continue
         r.count('ops')
         r.count('allocations_%s' % name, N)
-        idx = [n for n in range(1, N + 1) if (n - 1) % stride == 0 or n <= 40][shard::nshards]
+        # the quick tier strides over the allocation indices; which residue class it takes depends on the seed, so that different seeds cover different indices,
+        # and the asynchronous operations (many short library calls, each with its own first allocations) are always tried at every index
+        st = 1 if (name.startswith(('async_', 'ha_')) and N <= 4000) else stride
+        idx = [n for n in range(1, N + 1) if (n - 1) % st == (seed // 1000) % st or n <= 40][shard::nshards]
         sets = [[n] for n in idx]
         for _ in range(multi):
             sets.append(sorted(rng.sample(range(1, N + 1), min(N, rng.choice([2, 3])))))
@@ -297,7 +312,9 @@ def worker(job, r):
                 again = target(run) if name != 'ctx_new' else ref
                 live = run.teardown()
             except kexec.ExecCrashed as e:
-                key = core.san_summary(e.stderr) or ('signal:%s' % e.rc)
+                if isinstance(e, kexec.ExecTimeout):
+                    raise
+                key = 'spin' if isinstance(e, kexec.ExecSpin) else (core.san_summary(e.stderr) or ('signal:%s' % e.rc))
                 r.viol('crash:%s' % key, 'allocation %s of %d of operation %s fails -> %s\n%s' % (tag, N, name, key, e.stderr[:5000]), 'op=%s failat=%s' % (name, tag))
                 r.count('crashes')
                 r.observe(('crash', name, tag))
